@@ -74,13 +74,19 @@ def describe (bz : Bytes) : String :=
   let det := "/".intercalate [toHex d.pfx, toHex d.primary, toHex d.secondary, toHex d.nameHash,
       toHex d.excess, toHex d.parent]
   let b32 := if err.isNone then (toBech32 bz).getD "?" else "-"
+  -- a session address put together again from its own parts: parent scope address + session uuid
+  let rb := if err.isNone ∧ isSessionAddress bz then
+      (match asScopeAddress bz, sessionUUID bz with
+       | .ok sc, .ok su => showE (asSessionAddress sc su)
+       | _, _ => "!")
+    else "-"
   s!"a={toHex bz} v={v} hrp={if hrp = "" then "-" else hrp} pu={showE (primaryUUID bz)} " ++
   s!"su={showE (secondaryUUID bz)} nh={showE (nameHash bz)} scu={showE (scopeUUID bz)} " ++
   s!"seu={showE (sessionUUID bz)} ssu={showE (scopeSpecUUID bz)} csu={showE (contractSpecUUID bz)} " ++
   s!"asc={showE (asScopeAddress bz)} acs={showE (asContractSpecAddress bz)} " ++
   s!"sit={showE (scopeSessionIteratorPrefix bz)} rit={showE (scopeRecordIteratorPrefix bz)} " ++
   s!"rsit={showE (contractSpecRecordSpecIteratorPrefix bz)} is={is} um={boolStr (unmarshal bz)} " ++
-  s!"det={det} b32={b32}"
+  s!"det={det} b32={b32} rb={rb}"
 
 inductive Op where
   | new (k : Kind) (u : Bytes) (arg : Bytes)
@@ -169,7 +175,31 @@ def checkValid (ws : List String) (a : Bytes) (p : Parts) : String :=
   -- the implementation's text, read by the model's decoder, gives back the bytes and the hrp
   else if parseMetadataAddressFromBech32 (f "b32") ≠ some (a, p.kind.hrp) then "fail:bech32_roundtrip"
   else if f "a" ≠ toHex a then "fail:bytes_roundtrip"
+  -- parts → address: a session address is rebuilt from its scope address and its session uuid
+  else if p.kind = .session ∧ f "rb" ≠ toHex a then "fail:rebuild_from_parts"
   else "ok"
+
+/-- The documented result of `As…Address` on a WELL-FORMED parent address (`none` = the
+documentation does not promise a result): a scope / session / record address yields the scope
+address, the session address of every 16-byte uuid and the record address of every name that does
+not normalise to ""; a contract-spec / record-spec address yields the contract-spec address and
+the record-spec address of every such name.  (`PvProofs.C14.asSessionAddress_of_toBytes`,
+`asRecordAddress_of_session`, `asRecordSpecAddress_of_contractSpec`, `getDetails_parent_*`.) -/
+def derivedParts? (bz : Bytes) (k : Kind) (arg : Bytes) : Option Parts :=
+  match Parts.ofBytes? bz with
+  | none => none
+  | some p =>
+    let underScope := p.kind = .scope ∨ p.kind = .session ∨ p.kind = .record
+    let underCSpec := p.kind = .contractSpec ∨ p.kind = .recordSpec
+    let name := bytesToString arg
+    let named := normalizeName name ≠ ""
+    match k with
+    | .scope => if underScope then some ⟨.scope, p.primary, []⟩ else none
+    | .session => if underScope ∧ arg.length = 16 then some ⟨.session, p.primary, arg⟩ else none
+    | .record => if underScope ∧ named then some ⟨.record, p.primary, nameHash16 realSha name⟩ else none
+    | .contractSpec => if underCSpec then some ⟨.contractSpec, p.primary, []⟩ else none
+    | .recordSpec => if underCSpec ∧ named then some ⟨.recordSpec, p.primary, nameHash16 realSha name⟩ else none
+    | .scopeSpec => none
 
 /-- the property's conclusions evaluated on the implementation's output -/
 def verdict (op : Op) (impl : String) : String :=
@@ -213,7 +243,11 @@ def verdict (op : Op) (impl : String) : String :=
         else if p.primary ≠ slice1_17 bz then "fail:derived_parent_mismatch"
         else if p.tail ≠ tail then "fail:derived_address_invalid"
         else "ok"
-    | _ => "ok"
+    | _ =>
+      -- parts → address loses nothing: every documented (parent, component) pair has its address
+      match derivedParts? bz k arg with
+      | some _ => "fail:derive_rejects_valid_parts"
+      | none => "ok"
   | .key _ _ b =>
     match (kv ws "d") with
     | some d => if d = toHex b then "ok" else "fail:index_key_decode"
